@@ -308,6 +308,40 @@ Example c38_stats_roundtrip_nontrivial :
   c_stats_roundtrip TransportStats SerialStats.transport1 = Ok (TransportStats, SerialStats.transport1).
 Proof. exact SerialStats.transport1_ok. Qed.
 
+(* SessionDescription and ICECandidateInit are instances of
+   c38_struct_roundtrip (their generated shapes are well formed) ... *)
+From Verif Require Gen.GoStats.
+Theorem c38_sd_ci_shapes_wf :
+  SerialStats.wf_ty (TStruct GoStats.shape_SessionDescription) = true /\
+  SerialStats.wf_ty (TStruct GoStats.shape_ICECandidateInit) = true.
+Proof. split; vm_compute; reflexivity. Qed.
+Print Assumptions c38_sd_ci_shapes_wf.
+
+(* ... and their decoders on trees no encoder writes (djson suite), worked:
+   names and the SDPType value up to case, an unknown member, a duplicate, a
+   later null; null / a number into SDPType.UnmarshalJSON; a saved type error
+   overridden by an abort; a line index out of range or with a fraction *)
+Example c38_decoder_arbitrary_shapes :
+  let sd := c_unmarshal (TStruct GoStats.shape_SessionDescription) in
+  let ci := c_unmarshal (TStruct GoStats.shape_ICECandidateInit) in
+  let n z : jv cnum := JvNum (Some z, None) in
+  sd (JvObj [("TYPE", JvStr "OFFER"); ("x", n 1); ("sdp", JvStr "a"); ("Sdp", JvNull)])
+    = Ok (GStruct [GInt 1; GStr "a"]) /\
+  sd (JvObj [("type", JvStr "offer"); ("type", JvStr "answer")]) = Ok (GStruct [GInt 3; GStr ""]) /\
+  sd JvNull = Ok (GStruct [GInt 0; GStr ""]) /\
+  sd (JvObj [("type", JvNull)]) = Err "unknown-type" /\
+  sd (JvObj [("type", n 1)]) = Err "json-shape" /\
+  sd (JvObj [("sdp", n 5); ("type", JvStr "bogus")]) = Err "unknown-type" /\
+  sd (JvObj [("sdp", n 5); ("type", JvStr "offer")]) = Err "json-shape" /\
+  sd (JvArr []) = Err "json-shape" /\
+  ci (JvObj [("sdpMLineIndex", n 65535); ("SDPMID", JvStr "0")])
+    = Ok (GStruct [GStr ""; GPtr (Some (GStr "0")); GPtr (Some (GInt 65535)); GPtr None]) /\
+  ci (JvObj [("sdpMLineIndex", n 65536)]) = Err "json-shape" /\
+  ci (JvObj [("sdpMLineIndex", JvNum (None, Some 4607182418800017408))]) = Err "json-shape" /\
+  ci (JvObj [("sdpMLineIndex", n 3); ("sdpMLineIndex", JvNull)])
+    = Ok (GStruct [GStr ""; GPtr None; GPtr None; GPtr None]).
+Proof. vm_compute. repeat split; reflexivity. Qed.
+
 (* ---- second tie to the source: the translated enum tables ----
    Gen/GoSerial.v is regenerated by tools/go2coq before every run of this
    check from the enum files themselves: every String() method and every
